@@ -21,7 +21,7 @@ func init() {
 
 var c02Contexts = []string{"body", "action", "invariant", "custom-inner", "custom-outer", "cleanup-body", "cleanup-action", "cleanup-custom", "goroutine"}
 var c02Positions = []string{"first", "middle", "last", "after-skips", "late-step"}
-var c02Variants = []string{"plain", "then-skip", "then-invalid-draw", "skip-in-cleanup"}
+var c02Variants = []string{"plain", "then-skip", "then-invalid-draw", "skip-in-cleanup", "skip-in-later-cleanup", "deferred-skip"}
 
 func c02Scenarios(cfg runCfg) []Scenario {
 	var out []Scenario
@@ -46,6 +46,16 @@ func c02Scenarios(cfg runCfg) []Scenario {
 							}
 						case "skip-in-cleanup":
 							if ctx != "body" && ctx != "action" {
+								continue
+							}
+						case "skip-in-later-cleanup":
+							// the failure is signalled through a T method in one cleanup, a cleanup that runs later skips
+							if kindPanic(k) || (ctx != "cleanup-body" && ctx != "cleanup-action" && ctx != "cleanup-custom") {
+								continue
+							}
+						case "deferred-skip":
+							// Fatal/Fatalf/FailNow (or a non-fatal call) followed by a Skip from a deferred function of the same callback
+							if kindPanic(k) || (ctx != "body" && ctx != "action" && ctx != "custom-inner") {
 								continue
 							}
 						}
@@ -100,15 +110,38 @@ func c02Body(sp *c02Spec) func(x *X) {
 			}
 		}
 		if sp.variant == "skip-in-cleanup" && fire {
-			x.t.Cleanup(func() { x.ev("cleanup skips"); x.t.Skip("skip inside a cleanup") })
+			x.t.Cleanup(func() {
+				x.ev("cleanup skips")
+				x.inv.SkipWhy = "skip inside a cleanup"
+				x.t.Skip("skip inside a cleanup")
+			})
+		}
+		// registered before the signalling cleanup, hence run after it
+		laterSkip := func(t *rapid.T) {
+			if sp.variant == "skip-in-later-cleanup" {
+				t.Cleanup(func() {
+					if fire {
+						x.ev("later cleanup skips")
+						t.Skip("skip in a later cleanup")
+					}
+				})
+			}
+		}
+		deferredSkip := func(t *rapid.T) {
+			if sp.variant == "deferred-skip" && fire {
+				x.ev("deferred skip")
+				t.Skip("deferred skip")
+			}
 		}
 		switch sp.ctx {
 		case "body":
+			defer deferredSkip(x.t)
 			x.draw(rapid.IntRange(0, 100).AsAny(), "v")
 			if fire {
 				signal(x.t, "body")
 			}
 		case "cleanup-body":
+			laterSkip(x.t)
 			x.t.Cleanup(func() {
 				if fire {
 					signal(x.t, "body/cleanup")
@@ -135,6 +168,7 @@ func c02Body(sp *c02Spec) func(x *X) {
 					rapid.IntRange(0, 9).Draw(t, "s")
 					if sp.ctx == "cleanup-action" && !registered {
 						registered = true
+						laterSkip(t)
 						t.Cleanup(func() {
 							if fire && attempts >= sp.late {
 								signal(t, "action/cleanup")
@@ -142,6 +176,7 @@ func c02Body(sp *c02Spec) func(x *X) {
 						})
 					}
 					if sp.ctx == "action" && fire && attempts >= sp.late {
+						defer deferredSkip(t)
 						signal(t, "action")
 					}
 				},
@@ -170,6 +205,7 @@ func c02Body(sp *c02Spec) func(x *X) {
 				switch sp.ctx {
 				case "custom-inner":
 					if fire {
+						defer deferredSkip(t)
 						signal(t, "custom")
 					}
 				case "custom-outer":
@@ -177,6 +213,7 @@ func c02Body(sp *c02Spec) func(x *X) {
 						signal(x.t, "custom/outer-T")
 					}
 				case "cleanup-custom":
+					laterSkip(t)
 					t.Cleanup(func() {
 						if fire {
 							signal(t, "custom/cleanup")
